@@ -101,6 +101,24 @@ def same_form_as_baseline(F):
     return out
 
 
+def effects_unchanged(F, path):
+    """True / False / None: does `path` (with its closures) have the baseline's loss-free effect skeleton?  None when the
+    baseline skeleton is not loss-free (large functions) or the function did not exist at the baseline.  Used by the pinned
+    helper functions (rules/pins.py): their return-value normal form does not show effects (which setter is called with
+    which value), the skeleton does."""
+    from . import nf
+    forms, _ = _baseline()
+    h = forms.get(path)
+    if not h or not h.get("form") or path not in F.bodies:
+        return None
+    if raw_hash(family(F.doc, path)) == h["raw"]:
+        return True
+    s = nf.full_form(F, path)
+    if not lossy(s) and nf.form_hash(s) == h["form"]:
+        return True
+    return nf.is_verified_equivalent(F, path) is not None
+
+
 def apply(F):
     """-> (new doc, {path: table entry}) or (None, {})"""
     from . import nf
